@@ -204,7 +204,7 @@ HighWater == TLCSet(7, IF l > TLCGet(7) THEN l ELSE TLCGet(7))
 TraceAccepted == IF TLCGet(7) = Len(Trace) + 1 THEN TRUE
                  ELSE PrintT(<<"TRACE_REJECTED_AT_LINE", TLCGet(7)>>) /\ FALSE
 TraceView == <<View, l, diskOK, cleanOK, pend>>
-TrWrites == 1..400
+TrWrites == 1..256
 TrReaders == {0, 1}
 TrNone == {}
 TrSize(w) == 0
